@@ -1,4 +1,5 @@
 import QuillModel.Backend.FlushProgress
+import QuillModel.Backend.ResumeProgress
 import QuillModel.Backend.FlushContract
 import QuillModel.Props.C05
 import QuillModel.Props.C17
@@ -112,13 +113,14 @@ theorem C06_release (s : BSt) (a : Nat) (x : Actor) (f : Nat) (hx : s.actor a = 
     (f ∉ s.flags → (resume s a).1 = s ∧ (resume s a).2 = "parked:sleep") :=
   resume_flag s a x f hx hp
 
-/- Liveness, full statement (NOT proved in full): if the backend keeps polling, every call of `flush_log()` returns —
-   including a caller that is still parked on `Pend.retry` because its request did not fit into a full queue. The
-   theorem below covers the caller whose request has been committed (parked on its flag). What is missing for the
-   `Pend.retry` case: that a drained queue grants the request on the next retry (the end-to-end form of C09: the
-   reader position is published when the queue is drained), and a schedule that interleaves `resume` of the caller. -/
-/-- **`flush_log()` returns as long as the backend keeps running** (`…_partial`: for a caller whose Flush request
-    has been committed, see the comment above). In any reachable state of any configuration in which the backend
+/-! ### progress: `flush_log()` returns as long as the backend keeps running
+
+Two cases. The Flush request has been committed to the caller's queue (the caller waits on its flag):
+`C06_flush_log_returns_committed`. The request was refused by a full queue and the caller is still in its retry loop
+(`Pend.retry`): `C06_flush_log_returns` — the backend drains the queue and publishes the reader position (the
+end-to-end form of C09, `Backend/ResumeProgress.lean`), the retry is granted, and the first case applies. -/
+
+/-- **`flush_log()` returns, committed request.** In any reachable state of any configuration in which the backend
     thread is running, let `st` be a committed Flush request (flag `f`) and let every pending record be past its
     grace period (`Ripe`; automatic when ordering is disabled, and established by letting the clock advance by the
     grace period: next theorem). Then **every continuation of the schedule that consists of polls without injected
@@ -127,7 +129,7 @@ theorem C06_release (s : BSt) (a : Nat) (x : Actor) (f : Nat) (hx : s.actor a = 
     and hard limit (single-event mode and batch mode), queue capacity, either refresh order. The parked caller's next
     `resume` then answers "done" (`C06_release`). Every such poll pops at least one event while anything is pending
     (`PB.poll_quiet`): nothing starves. -/
-theorem C06_flush_log_returns_partial (s0 : BSt) (h0 : StartF s0) (ops : List Op) (i : Nat) (st : Stmt) (f : Nat)
+theorem C06_flush_log_returns_committed (s0 : BSt) (h0 : StartF s0) (ops : List Op) (i : Nat) (st : Stmt) (f : Nat)
     (hst : st ∈ ((runOps s0 ops).th i).accepted) (hk : st.kind = .flush f)
     (hrun : (runOps s0 ops).backendGone = false) (hripe : Ripe (runOps s0 ops))
     (suffix : List Op) (hq : ∀ o ∈ suffix, quietOp o = true)
@@ -142,7 +144,7 @@ theorem C06_flush_log_returns_partial (s0 : BSt) (h0 : StartF s0) (ops : List Op
 
 /-- the same with the premise on the clock made operational: the continuation starts with the clock advancing by at
     least the grace period (any amount when ordering is disabled) -/
-theorem C06_flush_log_returns_after_grace_partial (s0 : BSt) (h0 : StartF s0) (ops : List Op) (i : Nat) (st : Stmt)
+theorem C06_flush_log_returns_committed_after_grace (s0 : BSt) (h0 : StartF s0) (ops : List Op) (i : Nat) (st : Stmt)
     (f : Nat) (hst : st ∈ ((runOps s0 ops).th i).accepted) (hk : st.kind = .flush f)
     (hrun : (runOps s0 ops).backendGone = false) (dt : Nat) (hdt : (runOps s0 ops).cfg.grace ≤ dt)
     (suffix : List Op) (hq : ∀ o ∈ suffix, quietOp o = true)
@@ -156,6 +158,41 @@ theorem C06_flush_log_returns_after_grace_partial (s0 : BSt) (h0 : StartF s0) (o
       runOps (applyOp (runOps s0 ops) (.front (.tick dt))).1 suffix := by simp [runOps]
   rw [e]
   exact quiet_run_drains hpg suffix hq hn i st f hst hk
+
+/-- **`flush_log()` returns as long as the backend keeps running** (the caller still in its retry loop). Any
+    configuration whose queue publishes on drain (`qp.drainPublish`, extracted), either queue type; after **any**
+    schedule `pre` actor `a` is parked on the retry of a refused Flush request `st` (flag `f`) that fits an empty
+    queue, its context's reads are committed (`ReadsCommitted`: excludes only the fuel exit of the model's
+    `readQueue`, see `Props/C09Backend.lean`) and the backend is running. Continuation:
+    `tick dt₁ (≥ grace)`, quiet polls/ticks with at least `pendingCount` polls, **`resume a`**,
+    `tick dt₂ (≥ grace)`, quiet polls/ticks with at least one poll. Then the first `resume` commits the request (the
+    caller now waits on flag `f`), the flag is raised at the end, and the caller's next `resume` answers "done":
+    the call returns. -/
+theorem C06_flush_log_returns (s0 : BSt) (h0 : StartF s0) (pre : List Op) (a : Nat) (x : Actor) (st : Stmt) (f : Nat)
+    (hdp : s0.cfg.qp.drainPublish = true) (hx : (runOps s0 pre).actor a = some x) (hp : x.pend = .retry st 1)
+    (hk : st.kind = .flush f) (hsz : st.size ≤ s0.cfg.qcap)
+    (hcom : ∀ i, x.ctx = some i → ReadsCommitted (runOps s0 pre) i)
+    (hrun : (runOps s0 pre).backendGone = false)
+    (dt1 : Nat) (hdt1 : s0.cfg.grace ≤ dt1) (q1 : List Op) (hq1 : ∀ o ∈ q1, quietOp o = true)
+    (hn1 : pendingCount (runOps s0 pre) ≤ pollCount q1)
+    (dt2 : Nat) (hdt2 : s0.cfg.grace ≤ dt2) (q2 : List Op) (hq2 : ∀ o ∈ q2, quietOp o = true) (hn2 : 1 ≤ pollCount q2) :
+    pendOf (runOps s0 (pre ++ (.front (.tick dt1) :: q1) ++ [.front (.resume a)])) a = some (.flag f) ∧
+    f ∈ (runOps s0 (pre ++ (.front (.tick dt1) :: q1) ++ [.front (.resume a)] ++ (.front (.tick dt2) :: q2))).flags ∧
+    (applyOp (runOps s0 (pre ++ (.front (.tick dt1) :: q1) ++ [.front (.resume a)] ++ (.front (.tick dt2) :: q2)))
+      (.front (.resume a))).2 = "done" := by
+  have hgi := (start_GI h0.start).runOps pre
+  have hfi := (start_FI h0).runOps pre
+  have hcfg := (start_GI h0.start).cfg_runOps pre
+  have h := flush_retry_returns hgi hfi hrun (by rw [hcfg]; exact hdp) a x st f hx hp hk (by rw [hcfg]; exact hsz) hcom
+    dt1 (by rw [hcfg]; exact hdt1) q1 hq1 hn1 dt2 (by rw [hcfg]; exact hdt2) q2 hq2 hn2
+  have e1 : runOps s0 (pre ++ (.front (.tick dt1) :: q1) ++ [.front (.resume a)]) =
+      (applyOp (runOps (runOps s0 pre) (.front (.tick dt1) :: q1)) (.front (.resume a))).1 := by
+    simp [runOps, List.foldl_append]
+  have e2 : runOps s0 (pre ++ (.front (.tick dt1) :: q1) ++ [.front (.resume a)] ++ (.front (.tick dt2) :: q2)) =
+      runOps (applyOp (runOps (runOps s0 pre) (.front (.tick dt1) :: q1)) (.front (.resume a))).1 (.front (.tick dt2) :: q2) := by
+    simp [runOps, List.foldl_append]
+  rw [e1, e2]
+  exact h
 
 /-! ### the contract over positions of the event history
 
@@ -233,7 +270,7 @@ example :
     (runOps (c05Init true) c06Cycle).ths.map (fun t => (t.accepted.length, t.popped.length)) = [(3, 3)] := by
   decide
 
-/-- non-vacuity of `C06_flush_log_returns_after_grace_partial`: after the two statements and the Flush request are
+/-- non-vacuity of `C06_flush_log_returns_committed_after_grace`: after the two statements and the Flush request are
     committed (three pending records), the continuation "clock + 100, three polls" meets the hypotheses. -/
 example :
     (runOps (c05Init true) (c06Cycle.take 4)).backendGone = false ∧
@@ -325,6 +362,26 @@ example :
     (runOps c06DropInit c06Drop).flags = [0] ∧
     (runOps c06DropInit c06Drop).ths.map (fun t => (t.accepted.length, t.popped.length, t.fail, t.discarded)) = [(2, 2, 0, 0)] ∧
     (runOps c06DropInit c06Drop).actors.map (fun x => x.pend matches .none) = [true] := by
+  decide
+
+/-- non-vacuity of `C06_flush_log_returns`: on the 64-byte queue the Flush request (40 bytes ≤ 64) is refused behind the
+    47-byte statement and the caller is parked on its retry (continuation 1, context 0); the context still holds the
+    unread statement (so `ReadsCommitted` holds), the backend runs, one record is pending. The continuation
+    `tick 0, poll, resume 1, tick 0, poll` meets the hypotheses, and — as the theorem says — the flag is raised and
+    the caller's next `resume` answers "done". -/
+example :
+    StartF c06DropInit ∧ c06DropInit.cfg.qp.drainPublish = true ∧
+    ((runOps c06DropInit (c06Drop.take 3)).actor 1).map (fun x => (x.pend matches .retry _ 1, x.ctx)) = some (true, some 0) ∧
+    ((runOps c06DropInit (c06Drop.take 3)).actor 1).map
+      (fun x => match x.pend with | .retry st _ => (st.kind, st.size) | _ => (.log, 0)) = some (.flush 0, 40) ∧
+    ¬ ((runOps c06DropInit (c06Drop.take 3)).th 0).qStmts = [] ∧
+    (runOps c06DropInit (c06Drop.take 3)).backendGone = false ∧
+    pendingCount (runOps c06DropInit (c06Drop.take 3)) ≤ pollCount [.poll []] ∧
+    (runOps c06DropInit (c06Drop.take 3 ++ [.front (.tick 0), .poll []] ++ [.front (.resume 1)] ++
+      [.front (.tick 0), .poll []])).flags = [0] ∧
+    (applyOp (runOps c06DropInit (c06Drop.take 3 ++ [.front (.tick 0), .poll []] ++ [.front (.resume 1)] ++
+      [.front (.tick 0), .poll []])) (.front (.resume 1))).2 = "done" := by
+  refine ⟨⟨⟨by show 0 < 32; decide, rfl, rfl, rfl, rfl, rfl⟩, rfl, rfl⟩, ?_⟩
   decide
 
 theorem c05Init_startC : StartC (c05Init true) := by
